@@ -223,9 +223,19 @@ theorem rsubDt_eq (self : RD) (x : Temporal) : Gen.rsubDt self x = RDM.rsub self
   rw [neg_eq, bind_ok, raddDt_eq]
   cases RDM.radd (RDM.neg self) x <;> rfl
 
-theorem hashKey_eq (self : RD) : Gen.hashKey self = .ok (RDM.hashKey self) := by
-  unfold Gen.hashKey RDM.hashKey
+theorem hashKey_eq (self : RD) : Gen.hashKey self = .ok (RDM.hashList self) := by
+  unfold Gen.hashKey RDM.hashList
   cases self.weekday <;> rfl
+
+/-- the hashed tuple in source order carries the same information as the grouped `hashKey` -/
+theorem hashList_eq_iff (a b : RD) : hashList a = hashList b ↔ hashKey a = hashKey b := by
+  unfold hashList hashKey
+  simp only [List.cons.injEq, HashElt.wd.injEq, HashElt.int.injEq, HashElt.opt.injEq, and_true, Prod.mk.injEq]
+  constructor
+  · rintro ⟨h0, h1, h2, h3, h4, h5, h6, h7, h8, h9, h10, h11, h12, h13, h14, h15⟩
+    exact ⟨h0, ⟨h1, h2, h3, h4, h5, h6, h7, h8⟩, ⟨h9, h10, h11, h12, h13, h14, h15⟩⟩
+  · rintro ⟨h0, ⟨h1, h2, h3, h4, h5, h6, h7, h8⟩, ⟨h9, h10, h11, h12, h13, h14, h15⟩⟩
+    exact ⟨h0, h1, h2, h3, h4, h5, h6, h7, h8, h9, h10, h11, h12, h13, h14, h15⟩
 
 theorem bool_eq (self : RD) : Gen.bool self = .ok (RDM.bool self) := by
   unfold Gen.bool RDM.bool
@@ -484,5 +494,368 @@ theorem initDiff_eq (off : Nat → DT → Int) (fuel : Nat) (a b : Temporal) :
           rw [dtSub_eq off true dt1 dtm' (by rw [hk']; exact hmode), bind_ok]
           have ts := td_split (cmpKey off true dt1 - cmpKey off true dtm')
           rw [ts.1, ts.2]
+
+theorem map_ok {α β : Type} (f : α → β) (v : α) : Except.map f (Except.ok v : Py.R α) = .ok (f v) := rfl
+theorem map_err {α β : Type} (f : α → β) (e : Py.PyErr) : Except.map f (Except.error e : Py.R α) = .error e := rfl
+
+theorem bind_ite {α β : Type} (c : Prop) [Decidable c] (a b : Py.R α) (f : α → Py.R β) :
+    Except.bind (if c then a else b) f = if c then Except.bind a f else Except.bind b f := by
+  split <;> rfl
+theorem map_ite {α β : Type} (c : Prop) [Decidable c] (a b : Py.R α) (f : α → β) :
+    Except.map f (if c then a else b) = if c then Except.map f a else Except.map f b := by
+  split <;> rfl
+
+/-- the model's table scan, unfolded: the 12-way chain of the source's `for idx, ydays in enumerate(ydayidx)` -/
+theorem scan_eq (yday : Int) :
+    ydayLookup yday ydayidx 0 0 =
+      (if yday ≤ 31 then .ok (1, yday) else if yday ≤ 59 then .ok (2, yday - 31) else if yday ≤ 90 then .ok (3, yday - 59)
+       else if yday ≤ 120 then .ok (4, yday - 90) else if yday ≤ 151 then .ok (5, yday - 120)
+       else if yday ≤ 181 then .ok (6, yday - 151) else if yday ≤ 212 then .ok (7, yday - 181)
+       else if yday ≤ 243 then .ok (8, yday - 212) else if yday ≤ 273 then .ok (9, yday - 243)
+       else if yday ≤ 304 then .ok (10, yday - 273) else if yday ≤ 334 then .ok (11, yday - 304)
+       else if yday ≤ 366 then .ok (12, yday - 334) else .error .ValueError) := by
+  simp only [ydayidx, ydayLookup, Int.reduceAdd, ↓reduceIte, Int.reduceEq]
+
+/-- the unrolled scan of the translated constructor, for any way `G` of completing the record -/
+theorem chain_lemma (yday : Int) (G : Option Int → Option Int → RD) :
+    (if yday ≤ 31 then (Except.ok (Gen.fix (G (some 1) (some yday))) : Py.R RD)
+     else if yday ≤ 59 then .ok (Gen.fix (G (some 2) (some (yday - 31))))
+     else if yday ≤ 90 then .ok (Gen.fix (G (some 3) (some (yday - 59))))
+     else if yday ≤ 120 then .ok (Gen.fix (G (some 4) (some (yday - 90))))
+     else if yday ≤ 151 then .ok (Gen.fix (G (some 5) (some (yday - 120))))
+     else if yday ≤ 181 then .ok (Gen.fix (G (some 6) (some (yday - 151))))
+     else if yday ≤ 212 then .ok (Gen.fix (G (some 7) (some (yday - 181))))
+     else if yday ≤ 243 then .ok (Gen.fix (G (some 8) (some (yday - 212))))
+     else if yday ≤ 273 then .ok (Gen.fix (G (some 9) (some (yday - 243))))
+     else if yday ≤ 304 then .ok (Gen.fix (G (some 10) (some (yday - 273))))
+     else if yday ≤ 334 then .ok (Gen.fix (G (some 11) (some (yday - 304))))
+     else if yday ≤ 366 then .ok (Gen.fix (G (some 12) (some (yday - 334))))
+     else .error .ValueError)
+    = Except.bind ((ydayLookup yday ydayidx 0 0).map (fun md => (some md.1, some md.2)))
+        (fun x => .ok (Gen.fix (G x.1 x.2))) := by
+  rw [scan_eq]
+  simp only [map_ite, bind_ite, map_ok, map_err, bind_ok, bind_err]
+theorem truthy_some (v : Int) : RDPy.truthyOpt (some v) ↔ v ≠ 0 := by
+  unfold RDPy.truthyOpt; simp
+
+theorem initKw_eq_nnn (kw : Kw)  (hn : kw.nlyearday = none) (hy : kw.yearday = none) (hw : kw.weekday = none) :
+    Gen.initKw kw = mk kw := by
+  unfold Gen.initKw mk
+  rw [hn, hy, hw]
+  have _h := trivial
+  all_goals
+    simp only [truthy_none, truthy_some, RDPy.optVal, Option.getD_some, orInt, RDPy.isIntArg, RDPy.wdOfArg,
+      RDPy.weekdaysGet, weekdayOfArg, ne_eq, not_true_eq_false, or_self, ↓reduceIte, bind_ok, bind, pure, Except.pure,
+      Bool.false_eq_true]
+  all_goals (try (by_cases hi : i < -7 ∨ i ≥ 7))
+  all_goals (try (by_cases h0 : nv = 0))
+  all_goals (try (by_cases h1 : yv = 0))
+  all_goals (try (by_cases h2 : yv > 59))
+  all_goals
+    simp only [*, not_true_eq_false, not_false_eq_true, ↓reduceIte, map_ok, map_err, bind_ok, bind_err, true_and,
+      and_true, and_self, and_false, false_and, Int.lt_irrefl, gt_iff_lt, if_false_left, if_true_left]
+  all_goals first
+    | exact chain_lemma _ (fun m d => ({ years := kw.years, months := kw.months, days := kw.days + kw.weeks * 7, leapdays := kw.leapdays, hours := kw.hours, minutes := kw.minutes, seconds := kw.seconds, microseconds := kw.microseconds, year := kw.year, month := m, day := d, weekday := none, hour := kw.hour, minute := kw.minute, second := kw.second, microsecond := kw.microsecond } : RD))
+    | exact chain_lemma _ (fun m d => ({ years := kw.years, months := kw.months, days := kw.days + kw.weeks * 7, leapdays := kw.leapdays, hours := kw.hours, minutes := kw.minutes, seconds := kw.seconds, microseconds := kw.microseconds, year := kw.year, month := m, day := d, weekday := some (w, n), hour := kw.hour, minute := kw.minute, second := kw.second, microsecond := kw.microsecond } : RD))
+    | exact chain_lemma _ (fun m d => ({ years := kw.years, months := kw.months, days := kw.days + kw.weeks * 7, leapdays := kw.leapdays, hours := kw.hours, minutes := kw.minutes, seconds := kw.seconds, microseconds := kw.microseconds, year := kw.year, month := m, day := d, weekday := some (if i < 0 then i + 7 else i, none), hour := kw.hour, minute := kw.minute, second := kw.second, microsecond := kw.microsecond } : RD))
+    | exact chain_lemma _ (fun m d => ({ years := kw.years, months := kw.months, days := kw.days + kw.weeks * 7, leapdays := -1, hours := kw.hours, minutes := kw.minutes, seconds := kw.seconds, microseconds := kw.microseconds, year := kw.year, month := m, day := d, weekday := none, hour := kw.hour, minute := kw.minute, second := kw.second, microsecond := kw.microsecond } : RD))
+    | exact chain_lemma _ (fun m d => ({ years := kw.years, months := kw.months, days := kw.days + kw.weeks * 7, leapdays := -1, hours := kw.hours, minutes := kw.minutes, seconds := kw.seconds, microseconds := kw.microseconds, year := kw.year, month := m, day := d, weekday := some (w, n), hour := kw.hour, minute := kw.minute, second := kw.second, microsecond := kw.microsecond } : RD))
+    | exact chain_lemma _ (fun m d => ({ years := kw.years, months := kw.months, days := kw.days + kw.weeks * 7, leapdays := -1, hours := kw.hours, minutes := kw.minutes, seconds := kw.seconds, microseconds := kw.microseconds, year := kw.year, month := m, day := d, weekday := some (if i < 0 then i + 7 else i, none), hour := kw.hour, minute := kw.minute, second := kw.second, microsecond := kw.microsecond } : RD))
+
+
+theorem initKw_eq_nni (kw : Kw) (i : Int) (hn : kw.nlyearday = none) (hy : kw.yearday = none) (hw : kw.weekday = some (WdArg.int i)) :
+    Gen.initKw kw = mk kw := by
+  unfold Gen.initKw mk
+  rw [hn, hy, hw]
+  have _h := trivial
+  all_goals
+    simp only [truthy_none, truthy_some, RDPy.optVal, Option.getD_some, orInt, RDPy.isIntArg, RDPy.wdOfArg,
+      RDPy.weekdaysGet, weekdayOfArg, ne_eq, not_true_eq_false, or_self, ↓reduceIte, bind_ok, bind, pure, Except.pure,
+      Bool.false_eq_true]
+  all_goals (try (by_cases hi : i < -7 ∨ i ≥ 7))
+  all_goals (try (by_cases h0 : nv = 0))
+  all_goals (try (by_cases h1 : yv = 0))
+  all_goals (try (by_cases h2 : yv > 59))
+  all_goals
+    simp only [*, not_true_eq_false, not_false_eq_true, ↓reduceIte, map_ok, map_err, bind_ok, bind_err, true_and,
+      and_true, and_self, and_false, false_and, Int.lt_irrefl, gt_iff_lt, if_false_left, if_true_left]
+  all_goals first
+    | exact chain_lemma _ (fun m d => ({ years := kw.years, months := kw.months, days := kw.days + kw.weeks * 7, leapdays := kw.leapdays, hours := kw.hours, minutes := kw.minutes, seconds := kw.seconds, microseconds := kw.microseconds, year := kw.year, month := m, day := d, weekday := none, hour := kw.hour, minute := kw.minute, second := kw.second, microsecond := kw.microsecond } : RD))
+    | exact chain_lemma _ (fun m d => ({ years := kw.years, months := kw.months, days := kw.days + kw.weeks * 7, leapdays := kw.leapdays, hours := kw.hours, minutes := kw.minutes, seconds := kw.seconds, microseconds := kw.microseconds, year := kw.year, month := m, day := d, weekday := some (w, n), hour := kw.hour, minute := kw.minute, second := kw.second, microsecond := kw.microsecond } : RD))
+    | exact chain_lemma _ (fun m d => ({ years := kw.years, months := kw.months, days := kw.days + kw.weeks * 7, leapdays := kw.leapdays, hours := kw.hours, minutes := kw.minutes, seconds := kw.seconds, microseconds := kw.microseconds, year := kw.year, month := m, day := d, weekday := some (if i < 0 then i + 7 else i, none), hour := kw.hour, minute := kw.minute, second := kw.second, microsecond := kw.microsecond } : RD))
+    | exact chain_lemma _ (fun m d => ({ years := kw.years, months := kw.months, days := kw.days + kw.weeks * 7, leapdays := -1, hours := kw.hours, minutes := kw.minutes, seconds := kw.seconds, microseconds := kw.microseconds, year := kw.year, month := m, day := d, weekday := none, hour := kw.hour, minute := kw.minute, second := kw.second, microsecond := kw.microsecond } : RD))
+    | exact chain_lemma _ (fun m d => ({ years := kw.years, months := kw.months, days := kw.days + kw.weeks * 7, leapdays := -1, hours := kw.hours, minutes := kw.minutes, seconds := kw.seconds, microseconds := kw.microseconds, year := kw.year, month := m, day := d, weekday := some (w, n), hour := kw.hour, minute := kw.minute, second := kw.second, microsecond := kw.microsecond } : RD))
+    | exact chain_lemma _ (fun m d => ({ years := kw.years, months := kw.months, days := kw.days + kw.weeks * 7, leapdays := -1, hours := kw.hours, minutes := kw.minutes, seconds := kw.seconds, microseconds := kw.microseconds, year := kw.year, month := m, day := d, weekday := some (if i < 0 then i + 7 else i, none), hour := kw.hour, minute := kw.minute, second := kw.second, microsecond := kw.microsecond } : RD))
+
+
+theorem initKw_eq_nno (kw : Kw) (w : Int) (n : Option Int) (hn : kw.nlyearday = none) (hy : kw.yearday = none) (hw : kw.weekday = some (WdArg.obj w n)) :
+    Gen.initKw kw = mk kw := by
+  unfold Gen.initKw mk
+  rw [hn, hy, hw]
+  have _h := trivial
+  all_goals
+    simp only [truthy_none, truthy_some, RDPy.optVal, Option.getD_some, orInt, RDPy.isIntArg, RDPy.wdOfArg,
+      RDPy.weekdaysGet, weekdayOfArg, ne_eq, not_true_eq_false, or_self, ↓reduceIte, bind_ok, bind, pure, Except.pure,
+      Bool.false_eq_true]
+  all_goals (try (by_cases hi : i < -7 ∨ i ≥ 7))
+  all_goals (try (by_cases h0 : nv = 0))
+  all_goals (try (by_cases h1 : yv = 0))
+  all_goals (try (by_cases h2 : yv > 59))
+  all_goals
+    simp only [*, not_true_eq_false, not_false_eq_true, ↓reduceIte, map_ok, map_err, bind_ok, bind_err, true_and,
+      and_true, and_self, and_false, false_and, Int.lt_irrefl, gt_iff_lt, if_false_left, if_true_left]
+  all_goals first
+    | exact chain_lemma _ (fun m d => ({ years := kw.years, months := kw.months, days := kw.days + kw.weeks * 7, leapdays := kw.leapdays, hours := kw.hours, minutes := kw.minutes, seconds := kw.seconds, microseconds := kw.microseconds, year := kw.year, month := m, day := d, weekday := none, hour := kw.hour, minute := kw.minute, second := kw.second, microsecond := kw.microsecond } : RD))
+    | exact chain_lemma _ (fun m d => ({ years := kw.years, months := kw.months, days := kw.days + kw.weeks * 7, leapdays := kw.leapdays, hours := kw.hours, minutes := kw.minutes, seconds := kw.seconds, microseconds := kw.microseconds, year := kw.year, month := m, day := d, weekday := some (w, n), hour := kw.hour, minute := kw.minute, second := kw.second, microsecond := kw.microsecond } : RD))
+    | exact chain_lemma _ (fun m d => ({ years := kw.years, months := kw.months, days := kw.days + kw.weeks * 7, leapdays := kw.leapdays, hours := kw.hours, minutes := kw.minutes, seconds := kw.seconds, microseconds := kw.microseconds, year := kw.year, month := m, day := d, weekday := some (if i < 0 then i + 7 else i, none), hour := kw.hour, minute := kw.minute, second := kw.second, microsecond := kw.microsecond } : RD))
+    | exact chain_lemma _ (fun m d => ({ years := kw.years, months := kw.months, days := kw.days + kw.weeks * 7, leapdays := -1, hours := kw.hours, minutes := kw.minutes, seconds := kw.seconds, microseconds := kw.microseconds, year := kw.year, month := m, day := d, weekday := none, hour := kw.hour, minute := kw.minute, second := kw.second, microsecond := kw.microsecond } : RD))
+    | exact chain_lemma _ (fun m d => ({ years := kw.years, months := kw.months, days := kw.days + kw.weeks * 7, leapdays := -1, hours := kw.hours, minutes := kw.minutes, seconds := kw.seconds, microseconds := kw.microseconds, year := kw.year, month := m, day := d, weekday := some (w, n), hour := kw.hour, minute := kw.minute, second := kw.second, microsecond := kw.microsecond } : RD))
+    | exact chain_lemma _ (fun m d => ({ years := kw.years, months := kw.months, days := kw.days + kw.weeks * 7, leapdays := -1, hours := kw.hours, minutes := kw.minutes, seconds := kw.seconds, microseconds := kw.microseconds, year := kw.year, month := m, day := d, weekday := some (if i < 0 then i + 7 else i, none), hour := kw.hour, minute := kw.minute, second := kw.second, microsecond := kw.microsecond } : RD))
+
+
+theorem initKw_eq_nyn (kw : Kw) (yv : Int) (hn : kw.nlyearday = none) (hy : kw.yearday = some yv) (hw : kw.weekday = none) :
+    Gen.initKw kw = mk kw := by
+  unfold Gen.initKw mk
+  rw [hn, hy, hw]
+  have _h := trivial
+  all_goals
+    simp only [truthy_none, truthy_some, RDPy.optVal, Option.getD_some, orInt, RDPy.isIntArg, RDPy.wdOfArg,
+      RDPy.weekdaysGet, weekdayOfArg, ne_eq, not_true_eq_false, or_self, ↓reduceIte, bind_ok, bind, pure, Except.pure,
+      Bool.false_eq_true]
+  all_goals (try (by_cases hi : i < -7 ∨ i ≥ 7))
+  all_goals (try (by_cases h0 : nv = 0))
+  all_goals (try (by_cases h1 : yv = 0))
+  all_goals (try (by_cases h2 : yv > 59))
+  all_goals
+    simp only [*, not_true_eq_false, not_false_eq_true, ↓reduceIte, map_ok, map_err, bind_ok, bind_err, true_and,
+      and_true, and_self, and_false, false_and, Int.lt_irrefl, gt_iff_lt, if_false_left, if_true_left]
+  all_goals first
+    | exact chain_lemma _ (fun m d => ({ years := kw.years, months := kw.months, days := kw.days + kw.weeks * 7, leapdays := kw.leapdays, hours := kw.hours, minutes := kw.minutes, seconds := kw.seconds, microseconds := kw.microseconds, year := kw.year, month := m, day := d, weekday := none, hour := kw.hour, minute := kw.minute, second := kw.second, microsecond := kw.microsecond } : RD))
+    | exact chain_lemma _ (fun m d => ({ years := kw.years, months := kw.months, days := kw.days + kw.weeks * 7, leapdays := kw.leapdays, hours := kw.hours, minutes := kw.minutes, seconds := kw.seconds, microseconds := kw.microseconds, year := kw.year, month := m, day := d, weekday := some (w, n), hour := kw.hour, minute := kw.minute, second := kw.second, microsecond := kw.microsecond } : RD))
+    | exact chain_lemma _ (fun m d => ({ years := kw.years, months := kw.months, days := kw.days + kw.weeks * 7, leapdays := kw.leapdays, hours := kw.hours, minutes := kw.minutes, seconds := kw.seconds, microseconds := kw.microseconds, year := kw.year, month := m, day := d, weekday := some (if i < 0 then i + 7 else i, none), hour := kw.hour, minute := kw.minute, second := kw.second, microsecond := kw.microsecond } : RD))
+    | exact chain_lemma _ (fun m d => ({ years := kw.years, months := kw.months, days := kw.days + kw.weeks * 7, leapdays := -1, hours := kw.hours, minutes := kw.minutes, seconds := kw.seconds, microseconds := kw.microseconds, year := kw.year, month := m, day := d, weekday := none, hour := kw.hour, minute := kw.minute, second := kw.second, microsecond := kw.microsecond } : RD))
+    | exact chain_lemma _ (fun m d => ({ years := kw.years, months := kw.months, days := kw.days + kw.weeks * 7, leapdays := -1, hours := kw.hours, minutes := kw.minutes, seconds := kw.seconds, microseconds := kw.microseconds, year := kw.year, month := m, day := d, weekday := some (w, n), hour := kw.hour, minute := kw.minute, second := kw.second, microsecond := kw.microsecond } : RD))
+    | exact chain_lemma _ (fun m d => ({ years := kw.years, months := kw.months, days := kw.days + kw.weeks * 7, leapdays := -1, hours := kw.hours, minutes := kw.minutes, seconds := kw.seconds, microseconds := kw.microseconds, year := kw.year, month := m, day := d, weekday := some (if i < 0 then i + 7 else i, none), hour := kw.hour, minute := kw.minute, second := kw.second, microsecond := kw.microsecond } : RD))
+
+
+theorem initKw_eq_nyi (kw : Kw) (yv : Int) (i : Int) (hn : kw.nlyearday = none) (hy : kw.yearday = some yv) (hw : kw.weekday = some (WdArg.int i)) :
+    Gen.initKw kw = mk kw := by
+  unfold Gen.initKw mk
+  rw [hn, hy, hw]
+  have _h := trivial
+  all_goals
+    simp only [truthy_none, truthy_some, RDPy.optVal, Option.getD_some, orInt, RDPy.isIntArg, RDPy.wdOfArg,
+      RDPy.weekdaysGet, weekdayOfArg, ne_eq, not_true_eq_false, or_self, ↓reduceIte, bind_ok, bind, pure, Except.pure,
+      Bool.false_eq_true]
+  all_goals (try (by_cases hi : i < -7 ∨ i ≥ 7))
+  all_goals (try (by_cases h0 : nv = 0))
+  all_goals (try (by_cases h1 : yv = 0))
+  all_goals (try (by_cases h2 : yv > 59))
+  all_goals
+    simp only [*, not_true_eq_false, not_false_eq_true, ↓reduceIte, map_ok, map_err, bind_ok, bind_err, true_and,
+      and_true, and_self, and_false, false_and, Int.lt_irrefl, gt_iff_lt, if_false_left, if_true_left]
+  all_goals first
+    | exact chain_lemma _ (fun m d => ({ years := kw.years, months := kw.months, days := kw.days + kw.weeks * 7, leapdays := kw.leapdays, hours := kw.hours, minutes := kw.minutes, seconds := kw.seconds, microseconds := kw.microseconds, year := kw.year, month := m, day := d, weekday := none, hour := kw.hour, minute := kw.minute, second := kw.second, microsecond := kw.microsecond } : RD))
+    | exact chain_lemma _ (fun m d => ({ years := kw.years, months := kw.months, days := kw.days + kw.weeks * 7, leapdays := kw.leapdays, hours := kw.hours, minutes := kw.minutes, seconds := kw.seconds, microseconds := kw.microseconds, year := kw.year, month := m, day := d, weekday := some (w, n), hour := kw.hour, minute := kw.minute, second := kw.second, microsecond := kw.microsecond } : RD))
+    | exact chain_lemma _ (fun m d => ({ years := kw.years, months := kw.months, days := kw.days + kw.weeks * 7, leapdays := kw.leapdays, hours := kw.hours, minutes := kw.minutes, seconds := kw.seconds, microseconds := kw.microseconds, year := kw.year, month := m, day := d, weekday := some (if i < 0 then i + 7 else i, none), hour := kw.hour, minute := kw.minute, second := kw.second, microsecond := kw.microsecond } : RD))
+    | exact chain_lemma _ (fun m d => ({ years := kw.years, months := kw.months, days := kw.days + kw.weeks * 7, leapdays := -1, hours := kw.hours, minutes := kw.minutes, seconds := kw.seconds, microseconds := kw.microseconds, year := kw.year, month := m, day := d, weekday := none, hour := kw.hour, minute := kw.minute, second := kw.second, microsecond := kw.microsecond } : RD))
+    | exact chain_lemma _ (fun m d => ({ years := kw.years, months := kw.months, days := kw.days + kw.weeks * 7, leapdays := -1, hours := kw.hours, minutes := kw.minutes, seconds := kw.seconds, microseconds := kw.microseconds, year := kw.year, month := m, day := d, weekday := some (w, n), hour := kw.hour, minute := kw.minute, second := kw.second, microsecond := kw.microsecond } : RD))
+    | exact chain_lemma _ (fun m d => ({ years := kw.years, months := kw.months, days := kw.days + kw.weeks * 7, leapdays := -1, hours := kw.hours, minutes := kw.minutes, seconds := kw.seconds, microseconds := kw.microseconds, year := kw.year, month := m, day := d, weekday := some (if i < 0 then i + 7 else i, none), hour := kw.hour, minute := kw.minute, second := kw.second, microsecond := kw.microsecond } : RD))
+
+
+theorem initKw_eq_nyo (kw : Kw) (yv : Int) (w : Int) (n : Option Int) (hn : kw.nlyearday = none) (hy : kw.yearday = some yv) (hw : kw.weekday = some (WdArg.obj w n)) :
+    Gen.initKw kw = mk kw := by
+  unfold Gen.initKw mk
+  rw [hn, hy, hw]
+  have _h := trivial
+  all_goals
+    simp only [truthy_none, truthy_some, RDPy.optVal, Option.getD_some, orInt, RDPy.isIntArg, RDPy.wdOfArg,
+      RDPy.weekdaysGet, weekdayOfArg, ne_eq, not_true_eq_false, or_self, ↓reduceIte, bind_ok, bind, pure, Except.pure,
+      Bool.false_eq_true]
+  all_goals (try (by_cases hi : i < -7 ∨ i ≥ 7))
+  all_goals (try (by_cases h0 : nv = 0))
+  all_goals (try (by_cases h1 : yv = 0))
+  all_goals (try (by_cases h2 : yv > 59))
+  all_goals
+    simp only [*, not_true_eq_false, not_false_eq_true, ↓reduceIte, map_ok, map_err, bind_ok, bind_err, true_and,
+      and_true, and_self, and_false, false_and, Int.lt_irrefl, gt_iff_lt, if_false_left, if_true_left]
+  all_goals first
+    | exact chain_lemma _ (fun m d => ({ years := kw.years, months := kw.months, days := kw.days + kw.weeks * 7, leapdays := kw.leapdays, hours := kw.hours, minutes := kw.minutes, seconds := kw.seconds, microseconds := kw.microseconds, year := kw.year, month := m, day := d, weekday := none, hour := kw.hour, minute := kw.minute, second := kw.second, microsecond := kw.microsecond } : RD))
+    | exact chain_lemma _ (fun m d => ({ years := kw.years, months := kw.months, days := kw.days + kw.weeks * 7, leapdays := kw.leapdays, hours := kw.hours, minutes := kw.minutes, seconds := kw.seconds, microseconds := kw.microseconds, year := kw.year, month := m, day := d, weekday := some (w, n), hour := kw.hour, minute := kw.minute, second := kw.second, microsecond := kw.microsecond } : RD))
+    | exact chain_lemma _ (fun m d => ({ years := kw.years, months := kw.months, days := kw.days + kw.weeks * 7, leapdays := kw.leapdays, hours := kw.hours, minutes := kw.minutes, seconds := kw.seconds, microseconds := kw.microseconds, year := kw.year, month := m, day := d, weekday := some (if i < 0 then i + 7 else i, none), hour := kw.hour, minute := kw.minute, second := kw.second, microsecond := kw.microsecond } : RD))
+    | exact chain_lemma _ (fun m d => ({ years := kw.years, months := kw.months, days := kw.days + kw.weeks * 7, leapdays := -1, hours := kw.hours, minutes := kw.minutes, seconds := kw.seconds, microseconds := kw.microseconds, year := kw.year, month := m, day := d, weekday := none, hour := kw.hour, minute := kw.minute, second := kw.second, microsecond := kw.microsecond } : RD))
+    | exact chain_lemma _ (fun m d => ({ years := kw.years, months := kw.months, days := kw.days + kw.weeks * 7, leapdays := -1, hours := kw.hours, minutes := kw.minutes, seconds := kw.seconds, microseconds := kw.microseconds, year := kw.year, month := m, day := d, weekday := some (w, n), hour := kw.hour, minute := kw.minute, second := kw.second, microsecond := kw.microsecond } : RD))
+    | exact chain_lemma _ (fun m d => ({ years := kw.years, months := kw.months, days := kw.days + kw.weeks * 7, leapdays := -1, hours := kw.hours, minutes := kw.minutes, seconds := kw.seconds, microseconds := kw.microseconds, year := kw.year, month := m, day := d, weekday := some (if i < 0 then i + 7 else i, none), hour := kw.hour, minute := kw.minute, second := kw.second, microsecond := kw.microsecond } : RD))
+
+
+theorem initKw_eq_ynn (kw : Kw) (nv : Int) (hn : kw.nlyearday = some nv) (hy : kw.yearday = none) (hw : kw.weekday = none) :
+    Gen.initKw kw = mk kw := by
+  unfold Gen.initKw mk
+  rw [hn, hy, hw]
+  have _h := trivial
+  all_goals
+    simp only [truthy_none, truthy_some, RDPy.optVal, Option.getD_some, orInt, RDPy.isIntArg, RDPy.wdOfArg,
+      RDPy.weekdaysGet, weekdayOfArg, ne_eq, not_true_eq_false, or_self, ↓reduceIte, bind_ok, bind, pure, Except.pure,
+      Bool.false_eq_true]
+  all_goals (try (by_cases hi : i < -7 ∨ i ≥ 7))
+  all_goals (try (by_cases h0 : nv = 0))
+  all_goals (try (by_cases h1 : yv = 0))
+  all_goals (try (by_cases h2 : yv > 59))
+  all_goals
+    simp only [*, not_true_eq_false, not_false_eq_true, ↓reduceIte, map_ok, map_err, bind_ok, bind_err, true_and,
+      and_true, and_self, and_false, false_and, Int.lt_irrefl, gt_iff_lt, if_false_left, if_true_left]
+  all_goals first
+    | exact chain_lemma _ (fun m d => ({ years := kw.years, months := kw.months, days := kw.days + kw.weeks * 7, leapdays := kw.leapdays, hours := kw.hours, minutes := kw.minutes, seconds := kw.seconds, microseconds := kw.microseconds, year := kw.year, month := m, day := d, weekday := none, hour := kw.hour, minute := kw.minute, second := kw.second, microsecond := kw.microsecond } : RD))
+    | exact chain_lemma _ (fun m d => ({ years := kw.years, months := kw.months, days := kw.days + kw.weeks * 7, leapdays := kw.leapdays, hours := kw.hours, minutes := kw.minutes, seconds := kw.seconds, microseconds := kw.microseconds, year := kw.year, month := m, day := d, weekday := some (w, n), hour := kw.hour, minute := kw.minute, second := kw.second, microsecond := kw.microsecond } : RD))
+    | exact chain_lemma _ (fun m d => ({ years := kw.years, months := kw.months, days := kw.days + kw.weeks * 7, leapdays := kw.leapdays, hours := kw.hours, minutes := kw.minutes, seconds := kw.seconds, microseconds := kw.microseconds, year := kw.year, month := m, day := d, weekday := some (if i < 0 then i + 7 else i, none), hour := kw.hour, minute := kw.minute, second := kw.second, microsecond := kw.microsecond } : RD))
+    | exact chain_lemma _ (fun m d => ({ years := kw.years, months := kw.months, days := kw.days + kw.weeks * 7, leapdays := -1, hours := kw.hours, minutes := kw.minutes, seconds := kw.seconds, microseconds := kw.microseconds, year := kw.year, month := m, day := d, weekday := none, hour := kw.hour, minute := kw.minute, second := kw.second, microsecond := kw.microsecond } : RD))
+    | exact chain_lemma _ (fun m d => ({ years := kw.years, months := kw.months, days := kw.days + kw.weeks * 7, leapdays := -1, hours := kw.hours, minutes := kw.minutes, seconds := kw.seconds, microseconds := kw.microseconds, year := kw.year, month := m, day := d, weekday := some (w, n), hour := kw.hour, minute := kw.minute, second := kw.second, microsecond := kw.microsecond } : RD))
+    | exact chain_lemma _ (fun m d => ({ years := kw.years, months := kw.months, days := kw.days + kw.weeks * 7, leapdays := -1, hours := kw.hours, minutes := kw.minutes, seconds := kw.seconds, microseconds := kw.microseconds, year := kw.year, month := m, day := d, weekday := some (if i < 0 then i + 7 else i, none), hour := kw.hour, minute := kw.minute, second := kw.second, microsecond := kw.microsecond } : RD))
+
+
+theorem initKw_eq_yni (kw : Kw) (nv : Int) (i : Int) (hn : kw.nlyearday = some nv) (hy : kw.yearday = none) (hw : kw.weekday = some (WdArg.int i)) :
+    Gen.initKw kw = mk kw := by
+  unfold Gen.initKw mk
+  rw [hn, hy, hw]
+  have _h := trivial
+  all_goals
+    simp only [truthy_none, truthy_some, RDPy.optVal, Option.getD_some, orInt, RDPy.isIntArg, RDPy.wdOfArg,
+      RDPy.weekdaysGet, weekdayOfArg, ne_eq, not_true_eq_false, or_self, ↓reduceIte, bind_ok, bind, pure, Except.pure,
+      Bool.false_eq_true]
+  all_goals (try (by_cases hi : i < -7 ∨ i ≥ 7))
+  all_goals (try (by_cases h0 : nv = 0))
+  all_goals (try (by_cases h1 : yv = 0))
+  all_goals (try (by_cases h2 : yv > 59))
+  all_goals
+    simp only [*, not_true_eq_false, not_false_eq_true, ↓reduceIte, map_ok, map_err, bind_ok, bind_err, true_and,
+      and_true, and_self, and_false, false_and, Int.lt_irrefl, gt_iff_lt, if_false_left, if_true_left]
+  all_goals first
+    | exact chain_lemma _ (fun m d => ({ years := kw.years, months := kw.months, days := kw.days + kw.weeks * 7, leapdays := kw.leapdays, hours := kw.hours, minutes := kw.minutes, seconds := kw.seconds, microseconds := kw.microseconds, year := kw.year, month := m, day := d, weekday := none, hour := kw.hour, minute := kw.minute, second := kw.second, microsecond := kw.microsecond } : RD))
+    | exact chain_lemma _ (fun m d => ({ years := kw.years, months := kw.months, days := kw.days + kw.weeks * 7, leapdays := kw.leapdays, hours := kw.hours, minutes := kw.minutes, seconds := kw.seconds, microseconds := kw.microseconds, year := kw.year, month := m, day := d, weekday := some (w, n), hour := kw.hour, minute := kw.minute, second := kw.second, microsecond := kw.microsecond } : RD))
+    | exact chain_lemma _ (fun m d => ({ years := kw.years, months := kw.months, days := kw.days + kw.weeks * 7, leapdays := kw.leapdays, hours := kw.hours, minutes := kw.minutes, seconds := kw.seconds, microseconds := kw.microseconds, year := kw.year, month := m, day := d, weekday := some (if i < 0 then i + 7 else i, none), hour := kw.hour, minute := kw.minute, second := kw.second, microsecond := kw.microsecond } : RD))
+    | exact chain_lemma _ (fun m d => ({ years := kw.years, months := kw.months, days := kw.days + kw.weeks * 7, leapdays := -1, hours := kw.hours, minutes := kw.minutes, seconds := kw.seconds, microseconds := kw.microseconds, year := kw.year, month := m, day := d, weekday := none, hour := kw.hour, minute := kw.minute, second := kw.second, microsecond := kw.microsecond } : RD))
+    | exact chain_lemma _ (fun m d => ({ years := kw.years, months := kw.months, days := kw.days + kw.weeks * 7, leapdays := -1, hours := kw.hours, minutes := kw.minutes, seconds := kw.seconds, microseconds := kw.microseconds, year := kw.year, month := m, day := d, weekday := some (w, n), hour := kw.hour, minute := kw.minute, second := kw.second, microsecond := kw.microsecond } : RD))
+    | exact chain_lemma _ (fun m d => ({ years := kw.years, months := kw.months, days := kw.days + kw.weeks * 7, leapdays := -1, hours := kw.hours, minutes := kw.minutes, seconds := kw.seconds, microseconds := kw.microseconds, year := kw.year, month := m, day := d, weekday := some (if i < 0 then i + 7 else i, none), hour := kw.hour, minute := kw.minute, second := kw.second, microsecond := kw.microsecond } : RD))
+
+
+theorem initKw_eq_yno (kw : Kw) (nv : Int) (w : Int) (n : Option Int) (hn : kw.nlyearday = some nv) (hy : kw.yearday = none) (hw : kw.weekday = some (WdArg.obj w n)) :
+    Gen.initKw kw = mk kw := by
+  unfold Gen.initKw mk
+  rw [hn, hy, hw]
+  have _h := trivial
+  all_goals
+    simp only [truthy_none, truthy_some, RDPy.optVal, Option.getD_some, orInt, RDPy.isIntArg, RDPy.wdOfArg,
+      RDPy.weekdaysGet, weekdayOfArg, ne_eq, not_true_eq_false, or_self, ↓reduceIte, bind_ok, bind, pure, Except.pure,
+      Bool.false_eq_true]
+  all_goals (try (by_cases hi : i < -7 ∨ i ≥ 7))
+  all_goals (try (by_cases h0 : nv = 0))
+  all_goals (try (by_cases h1 : yv = 0))
+  all_goals (try (by_cases h2 : yv > 59))
+  all_goals
+    simp only [*, not_true_eq_false, not_false_eq_true, ↓reduceIte, map_ok, map_err, bind_ok, bind_err, true_and,
+      and_true, and_self, and_false, false_and, Int.lt_irrefl, gt_iff_lt, if_false_left, if_true_left]
+  all_goals first
+    | exact chain_lemma _ (fun m d => ({ years := kw.years, months := kw.months, days := kw.days + kw.weeks * 7, leapdays := kw.leapdays, hours := kw.hours, minutes := kw.minutes, seconds := kw.seconds, microseconds := kw.microseconds, year := kw.year, month := m, day := d, weekday := none, hour := kw.hour, minute := kw.minute, second := kw.second, microsecond := kw.microsecond } : RD))
+    | exact chain_lemma _ (fun m d => ({ years := kw.years, months := kw.months, days := kw.days + kw.weeks * 7, leapdays := kw.leapdays, hours := kw.hours, minutes := kw.minutes, seconds := kw.seconds, microseconds := kw.microseconds, year := kw.year, month := m, day := d, weekday := some (w, n), hour := kw.hour, minute := kw.minute, second := kw.second, microsecond := kw.microsecond } : RD))
+    | exact chain_lemma _ (fun m d => ({ years := kw.years, months := kw.months, days := kw.days + kw.weeks * 7, leapdays := kw.leapdays, hours := kw.hours, minutes := kw.minutes, seconds := kw.seconds, microseconds := kw.microseconds, year := kw.year, month := m, day := d, weekday := some (if i < 0 then i + 7 else i, none), hour := kw.hour, minute := kw.minute, second := kw.second, microsecond := kw.microsecond } : RD))
+    | exact chain_lemma _ (fun m d => ({ years := kw.years, months := kw.months, days := kw.days + kw.weeks * 7, leapdays := -1, hours := kw.hours, minutes := kw.minutes, seconds := kw.seconds, microseconds := kw.microseconds, year := kw.year, month := m, day := d, weekday := none, hour := kw.hour, minute := kw.minute, second := kw.second, microsecond := kw.microsecond } : RD))
+    | exact chain_lemma _ (fun m d => ({ years := kw.years, months := kw.months, days := kw.days + kw.weeks * 7, leapdays := -1, hours := kw.hours, minutes := kw.minutes, seconds := kw.seconds, microseconds := kw.microseconds, year := kw.year, month := m, day := d, weekday := some (w, n), hour := kw.hour, minute := kw.minute, second := kw.second, microsecond := kw.microsecond } : RD))
+    | exact chain_lemma _ (fun m d => ({ years := kw.years, months := kw.months, days := kw.days + kw.weeks * 7, leapdays := -1, hours := kw.hours, minutes := kw.minutes, seconds := kw.seconds, microseconds := kw.microseconds, year := kw.year, month := m, day := d, weekday := some (if i < 0 then i + 7 else i, none), hour := kw.hour, minute := kw.minute, second := kw.second, microsecond := kw.microsecond } : RD))
+
+
+theorem initKw_eq_yyn (kw : Kw) (nv : Int) (yv : Int) (hn : kw.nlyearday = some nv) (hy : kw.yearday = some yv) (hw : kw.weekday = none) :
+    Gen.initKw kw = mk kw := by
+  unfold Gen.initKw mk
+  rw [hn, hy, hw]
+  have _h := trivial
+  all_goals
+    simp only [truthy_none, truthy_some, RDPy.optVal, Option.getD_some, orInt, RDPy.isIntArg, RDPy.wdOfArg,
+      RDPy.weekdaysGet, weekdayOfArg, ne_eq, not_true_eq_false, or_self, ↓reduceIte, bind_ok, bind, pure, Except.pure,
+      Bool.false_eq_true]
+  all_goals (try (by_cases hi : i < -7 ∨ i ≥ 7))
+  all_goals (try (by_cases h0 : nv = 0))
+  all_goals (try (by_cases h1 : yv = 0))
+  all_goals (try (by_cases h2 : yv > 59))
+  all_goals
+    simp only [*, not_true_eq_false, not_false_eq_true, ↓reduceIte, map_ok, map_err, bind_ok, bind_err, true_and,
+      and_true, and_self, and_false, false_and, Int.lt_irrefl, gt_iff_lt, if_false_left, if_true_left]
+  all_goals first
+    | exact chain_lemma _ (fun m d => ({ years := kw.years, months := kw.months, days := kw.days + kw.weeks * 7, leapdays := kw.leapdays, hours := kw.hours, minutes := kw.minutes, seconds := kw.seconds, microseconds := kw.microseconds, year := kw.year, month := m, day := d, weekday := none, hour := kw.hour, minute := kw.minute, second := kw.second, microsecond := kw.microsecond } : RD))
+    | exact chain_lemma _ (fun m d => ({ years := kw.years, months := kw.months, days := kw.days + kw.weeks * 7, leapdays := kw.leapdays, hours := kw.hours, minutes := kw.minutes, seconds := kw.seconds, microseconds := kw.microseconds, year := kw.year, month := m, day := d, weekday := some (w, n), hour := kw.hour, minute := kw.minute, second := kw.second, microsecond := kw.microsecond } : RD))
+    | exact chain_lemma _ (fun m d => ({ years := kw.years, months := kw.months, days := kw.days + kw.weeks * 7, leapdays := kw.leapdays, hours := kw.hours, minutes := kw.minutes, seconds := kw.seconds, microseconds := kw.microseconds, year := kw.year, month := m, day := d, weekday := some (if i < 0 then i + 7 else i, none), hour := kw.hour, minute := kw.minute, second := kw.second, microsecond := kw.microsecond } : RD))
+    | exact chain_lemma _ (fun m d => ({ years := kw.years, months := kw.months, days := kw.days + kw.weeks * 7, leapdays := -1, hours := kw.hours, minutes := kw.minutes, seconds := kw.seconds, microseconds := kw.microseconds, year := kw.year, month := m, day := d, weekday := none, hour := kw.hour, minute := kw.minute, second := kw.second, microsecond := kw.microsecond } : RD))
+    | exact chain_lemma _ (fun m d => ({ years := kw.years, months := kw.months, days := kw.days + kw.weeks * 7, leapdays := -1, hours := kw.hours, minutes := kw.minutes, seconds := kw.seconds, microseconds := kw.microseconds, year := kw.year, month := m, day := d, weekday := some (w, n), hour := kw.hour, minute := kw.minute, second := kw.second, microsecond := kw.microsecond } : RD))
+    | exact chain_lemma _ (fun m d => ({ years := kw.years, months := kw.months, days := kw.days + kw.weeks * 7, leapdays := -1, hours := kw.hours, minutes := kw.minutes, seconds := kw.seconds, microseconds := kw.microseconds, year := kw.year, month := m, day := d, weekday := some (if i < 0 then i + 7 else i, none), hour := kw.hour, minute := kw.minute, second := kw.second, microsecond := kw.microsecond } : RD))
+
+
+set_option maxHeartbeats 600000 in
+theorem initKw_eq_yyi (kw : Kw) (nv : Int) (yv : Int) (i : Int) (hn : kw.nlyearday = some nv) (hy : kw.yearday = some yv) (hw : kw.weekday = some (WdArg.int i)) :
+    Gen.initKw kw = mk kw := by
+  unfold Gen.initKw mk
+  rw [hn, hy, hw]
+  have _h := trivial
+  all_goals
+    simp only [truthy_none, truthy_some, RDPy.optVal, Option.getD_some, orInt, RDPy.isIntArg, RDPy.wdOfArg,
+      RDPy.weekdaysGet, weekdayOfArg, ne_eq, not_true_eq_false, or_self, ↓reduceIte, bind_ok, bind, pure, Except.pure,
+      Bool.false_eq_true]
+  all_goals (try (by_cases hi : i < -7 ∨ i ≥ 7))
+  all_goals (try (by_cases h0 : nv = 0))
+  all_goals (try (by_cases h1 : yv = 0))
+  all_goals (try (by_cases h2 : yv > 59))
+  all_goals
+    simp only [*, not_true_eq_false, not_false_eq_true, ↓reduceIte, map_ok, map_err, bind_ok, bind_err, true_and,
+      and_true, and_self, and_false, false_and, Int.lt_irrefl, gt_iff_lt, if_false_left, if_true_left]
+  all_goals first
+    | exact chain_lemma _ (fun m d => ({ years := kw.years, months := kw.months, days := kw.days + kw.weeks * 7, leapdays := kw.leapdays, hours := kw.hours, minutes := kw.minutes, seconds := kw.seconds, microseconds := kw.microseconds, year := kw.year, month := m, day := d, weekday := none, hour := kw.hour, minute := kw.minute, second := kw.second, microsecond := kw.microsecond } : RD))
+    | exact chain_lemma _ (fun m d => ({ years := kw.years, months := kw.months, days := kw.days + kw.weeks * 7, leapdays := kw.leapdays, hours := kw.hours, minutes := kw.minutes, seconds := kw.seconds, microseconds := kw.microseconds, year := kw.year, month := m, day := d, weekday := some (w, n), hour := kw.hour, minute := kw.minute, second := kw.second, microsecond := kw.microsecond } : RD))
+    | exact chain_lemma _ (fun m d => ({ years := kw.years, months := kw.months, days := kw.days + kw.weeks * 7, leapdays := kw.leapdays, hours := kw.hours, minutes := kw.minutes, seconds := kw.seconds, microseconds := kw.microseconds, year := kw.year, month := m, day := d, weekday := some (if i < 0 then i + 7 else i, none), hour := kw.hour, minute := kw.minute, second := kw.second, microsecond := kw.microsecond } : RD))
+    | exact chain_lemma _ (fun m d => ({ years := kw.years, months := kw.months, days := kw.days + kw.weeks * 7, leapdays := -1, hours := kw.hours, minutes := kw.minutes, seconds := kw.seconds, microseconds := kw.microseconds, year := kw.year, month := m, day := d, weekday := none, hour := kw.hour, minute := kw.minute, second := kw.second, microsecond := kw.microsecond } : RD))
+    | exact chain_lemma _ (fun m d => ({ years := kw.years, months := kw.months, days := kw.days + kw.weeks * 7, leapdays := -1, hours := kw.hours, minutes := kw.minutes, seconds := kw.seconds, microseconds := kw.microseconds, year := kw.year, month := m, day := d, weekday := some (w, n), hour := kw.hour, minute := kw.minute, second := kw.second, microsecond := kw.microsecond } : RD))
+    | exact chain_lemma _ (fun m d => ({ years := kw.years, months := kw.months, days := kw.days + kw.weeks * 7, leapdays := -1, hours := kw.hours, minutes := kw.minutes, seconds := kw.seconds, microseconds := kw.microseconds, year := kw.year, month := m, day := d, weekday := some (if i < 0 then i + 7 else i, none), hour := kw.hour, minute := kw.minute, second := kw.second, microsecond := kw.microsecond } : RD))
+
+
+set_option maxHeartbeats 600000 in
+theorem initKw_eq_yyo (kw : Kw) (nv : Int) (yv : Int) (w : Int) (n : Option Int) (hn : kw.nlyearday = some nv) (hy : kw.yearday = some yv) (hw : kw.weekday = some (WdArg.obj w n)) :
+    Gen.initKw kw = mk kw := by
+  unfold Gen.initKw mk
+  rw [hn, hy, hw]
+  have _h := trivial
+  all_goals
+    simp only [truthy_none, truthy_some, RDPy.optVal, Option.getD_some, orInt, RDPy.isIntArg, RDPy.wdOfArg,
+      RDPy.weekdaysGet, weekdayOfArg, ne_eq, not_true_eq_false, or_self, ↓reduceIte, bind_ok, bind, pure, Except.pure,
+      Bool.false_eq_true]
+  all_goals (try (by_cases hi : i < -7 ∨ i ≥ 7))
+  all_goals (try (by_cases h0 : nv = 0))
+  all_goals (try (by_cases h1 : yv = 0))
+  all_goals (try (by_cases h2 : yv > 59))
+  all_goals
+    simp only [*, not_true_eq_false, not_false_eq_true, ↓reduceIte, map_ok, map_err, bind_ok, bind_err, true_and,
+      and_true, and_self, and_false, false_and, Int.lt_irrefl, gt_iff_lt, if_false_left, if_true_left]
+  all_goals first
+    | exact chain_lemma _ (fun m d => ({ years := kw.years, months := kw.months, days := kw.days + kw.weeks * 7, leapdays := kw.leapdays, hours := kw.hours, minutes := kw.minutes, seconds := kw.seconds, microseconds := kw.microseconds, year := kw.year, month := m, day := d, weekday := none, hour := kw.hour, minute := kw.minute, second := kw.second, microsecond := kw.microsecond } : RD))
+    | exact chain_lemma _ (fun m d => ({ years := kw.years, months := kw.months, days := kw.days + kw.weeks * 7, leapdays := kw.leapdays, hours := kw.hours, minutes := kw.minutes, seconds := kw.seconds, microseconds := kw.microseconds, year := kw.year, month := m, day := d, weekday := some (w, n), hour := kw.hour, minute := kw.minute, second := kw.second, microsecond := kw.microsecond } : RD))
+    | exact chain_lemma _ (fun m d => ({ years := kw.years, months := kw.months, days := kw.days + kw.weeks * 7, leapdays := kw.leapdays, hours := kw.hours, minutes := kw.minutes, seconds := kw.seconds, microseconds := kw.microseconds, year := kw.year, month := m, day := d, weekday := some (if i < 0 then i + 7 else i, none), hour := kw.hour, minute := kw.minute, second := kw.second, microsecond := kw.microsecond } : RD))
+    | exact chain_lemma _ (fun m d => ({ years := kw.years, months := kw.months, days := kw.days + kw.weeks * 7, leapdays := -1, hours := kw.hours, minutes := kw.minutes, seconds := kw.seconds, microseconds := kw.microseconds, year := kw.year, month := m, day := d, weekday := none, hour := kw.hour, minute := kw.minute, second := kw.second, microsecond := kw.microsecond } : RD))
+    | exact chain_lemma _ (fun m d => ({ years := kw.years, months := kw.months, days := kw.days + kw.weeks * 7, leapdays := -1, hours := kw.hours, minutes := kw.minutes, seconds := kw.seconds, microseconds := kw.microseconds, year := kw.year, month := m, day := d, weekday := some (w, n), hour := kw.hour, minute := kw.minute, second := kw.second, microsecond := kw.microsecond } : RD))
+    | exact chain_lemma _ (fun m d => ({ years := kw.years, months := kw.months, days := kw.days + kw.weeks * 7, leapdays := -1, hours := kw.hours, minutes := kw.minutes, seconds := kw.seconds, microseconds := kw.microseconds, year := kw.year, month := m, day := d, weekday := some (if i < 0 then i + 7 else i, none), hour := kw.hour, minute := kw.minute, second := kw.second, microsecond := kw.microsecond } : RD))
+
+
+/-- **the translated keyword constructor IS the model `mk`**, for every keyword set: yearday / nlyearday scan,
+    integer / object / absent weekday, the IndexError and ValueError branches included -/
+theorem initKw_eq (kw : Kw) : Gen.initKw kw = mk kw := by
+  rcases hn : kw.nlyearday with _ | nv <;> rcases hy : kw.yearday with _ | yv <;>
+    rcases hw : kw.weekday with _ | (i | ⟨w, n⟩)
+  · exact initKw_eq_nnn kw  hn hy hw
+  · exact initKw_eq_nni kw i hn hy hw
+  · exact initKw_eq_nno kw w n hn hy hw
+  · exact initKw_eq_nyn kw yv hn hy hw
+  · exact initKw_eq_nyi kw yv i hn hy hw
+  · exact initKw_eq_nyo kw yv w n hn hy hw
+  · exact initKw_eq_ynn kw nv hn hy hw
+  · exact initKw_eq_yni kw nv i hn hy hw
+  · exact initKw_eq_yno kw nv w n hn hy hw
+  · exact initKw_eq_yyn kw nv yv hn hy hw
+  · exact initKw_eq_yyi kw nv yv i hn hy hw
+  · exact initKw_eq_yyo kw nv yv w n hn hy hw
 
 end RDG
